@@ -102,6 +102,7 @@ namespace pika::threads::detail {
         {
             {
                 pika::detail::unlock_guard<std::unique_lock<pika::detail::spinlock>> ul(l);
+                PIKA_VERIF_POINT(62, this);
                 if (!exit_funcs_.front().empty()) exit_funcs_.front()();
             }
             exit_funcs_.pop_front();
